@@ -237,6 +237,33 @@ func reInst(re rePool) func(*rand.Rand) []string {
 
 // genMultiSeg: literals and binds mixed in one segment (never two literals adjacent).
 func genMultiSeg(r *rand.Rand, used map[string]bool) gSeg {
+	if r.Intn(5) == 0 {
+		// the same (or a mirrored) literal on both sides of ONE bind: "rc-{x}-rc", "zz{x}zz", "a{x}a".  Requests are
+		// mostly ordinary instances, but a third are SQUEEZED: the two literals with nothing between them, or
+		// overlapping ("rc-rc", "zzz", "a") — the bind must still capture at least one byte of its own.
+		pairs := [][2]string{{"rc-", "-rc"}, {"--", "--"}, {"zz", "zz"}, {"a", "a"}, {"ab", "ba"}, {"x.", ".x"}, {"v", "v1"}, {"(", "("}}
+		pr := pairs[r.Intn(len(pairs))]
+		b := freshBind(r, used)
+		mid := gElem{kind: 'b', text: b}
+		midInst := func(r *rand.Rand) string { return pick(r, []string{"a", "1", "ab", "x-y", "z", "-", "rc"}) }
+		if r.Intn(3) == 0 {
+			re := regexes[r.Intn(len(regexes))]
+			mid = gElem{kind: 'p', params: []gParam{{b, true, re.expr}}}
+			midInst = func(r *rand.Rand) string { return reInst(re)(r)[0] }
+		}
+		return gSeg{elems: []gElem{{kind: 'i', text: pr[0]}, mid, {kind: 'i', text: pr[1]}}, inst: func(r *rand.Rand) []string {
+			switch r.Intn(9) {
+			case 0:
+				return []string{pr[0] + pr[1]}
+			case 1:
+				k := 1 + r.Intn(len(pr[1]))
+				return []string{pr[0] + pr[1][k:]}
+			case 2:
+				return []string{pick(r, []string{pr[0], pr[1], pr[0][:len(pr[0])-1] + pr[1]})}
+			}
+			return []string{pr[0] + midInst(r) + pr[1]}
+		}}
+	}
 	n := 2 + r.Intn(3)
 	var elems []gElem
 	var insts []func(*rand.Rand) string
@@ -321,7 +348,25 @@ func (rt gRoute) instance(r *rand.Rand) []string {
 // mutatePath applies the request-path mutations of DESIGN.md §3.4.
 func mutatePath(r *rand.Rand, segs []string) string {
 	segs = append([]string(nil), segs...)
-	switch r.Intn(14) {
+	switch r.Intn(16) {
+	case 14:
+		// a near miss inside one segment: one byte dropped
+		if len(segs) > 0 {
+			i := r.Intn(len(segs))
+			if n := len(segs[i]); n > 0 {
+				j := r.Intn(n)
+				segs[i] = segs[i][:j] + segs[i][j+1:]
+			}
+		}
+	case 15:
+		// … or doubled
+		if len(segs) > 0 {
+			i := r.Intn(len(segs))
+			if n := len(segs[i]); n > 0 {
+				j := r.Intn(n)
+				segs[i] = segs[i][:j+1] + segs[i][j:]
+			}
+		}
 	case 0:
 		if len(segs) > 1 {
 			i := r.Intn(len(segs))
